@@ -11,7 +11,7 @@ class _RL(dict):
 UNIT_RLIMIT = _RL({"div_small": 80, "mul_redc": 80})      # unit -> --rlimit (Verus default is 10; 5x head-room over the measured maximum)
 UNIT_TIMEOUT = {"knuth": 1500, "addmul": 900, "mul_redc": 1200}     # unit -> seconds
 UNIT_EXPECT = {       # unit -> minimum number of verified functions on the unchanged tree (vacuity guard)
-    "core": 31, "add": 29, "kernels": 79, "addmul": 71, "addmul_n": 73, "mul": 51, "divd": 45, "div_small": 235, "knuth": 145, "mul_redc": 124, "basics": 22, "pow": 38, "divw": 54, "modular": 63, "spigot": 44, "gcd": 21, "forward": 57, "invring": 36, "bitlen": 70, "shifts": 121, "recip_table": 2, "gcdext": 64, "gcdw": 33, "bits": 60,
+    "core": 31, "add": 29, "kernels": 79, "addmul": 71, "addmul_n": 73, "mul": 51, "divd": 45, "div_small": 235, "knuth": 145, "mul_redc": 124, "basics": 22, "pow": 38, "divw": 54, "modular": 63, "spigot": 44, "gcd": 21, "forward": 57, "invring": 36, "bitlen": 70, "shifts": 131, "recip_table": 2, "gcdext": 64, "gcdw": 33, "bits": 60,
 }
 
 COMMON_TRUST = [
@@ -72,8 +72,8 @@ PROPS = {
         units=["core", "add", "forward"],
         kani=dict(
             features=None,
-            quick=["c01::c01_arith_" + w for w in ["w0", "w1", "w60", "w64", "w65", "w128"]] + ["c01::c01_sum_w65"],
-            thorough=["c01::c01_arith_" + w for w in W_T] + ["c01::c01_sum_w65", "c01::c01_sum_w8"],
+            quick=["c01::c01_arith_" + w for w in ["w0", "w1", "w60", "w64", "w65", "w128"]] + ["c01::c01_sum_w65"] + hs("core_specs", r"u64_"),
+            thorough=["c01::c01_arith_" + w for w in W_T] + ["c01::c01_sum_w65", "c01::c01_sum_w8"] + hs("core_specs", r"u64_"),
             bounds="per width: all operand pairs, loops closed by LIMBS (complete); Sum: slices of <= 3 elements (bounded)",
         ),
         explanation="overflowing_add/sub/neg and their wrappers carry Verus contracts over val() = limb value for ALL BITS/LIMBS; "
@@ -84,30 +84,31 @@ PROPS = {
     "C15": dict(
         level="proof",
         level_text="Verus proves, for all slice lengths and contents, the exact integer contracts (result limbs plus carry/borrow word, or overflow flag) of adc, sbb, adc_n, sbb_n, "
-                   "mac, mul_nx1, addmul_nx1, submul_nx1, cmp, the DoubleWord helpers and the general addmul (zero trimming, sliding window, truncation) on the functions re-extracted from /repo; "
+                   "mac, mul_nx1, addmul_nx1, submul_nx1, cmp, shift_left_small, shift_right_small, the DoubleWord helpers and the general addmul (zero trimming, sliding window, truncation) on the functions re-extracted from /repo; "
                    "Kani proves the linear kernels (adc_n, sbb_n, add_nx1, shifts, cmp) per length and supplies counterexamples",
         level_note="assumed in Verus: add_nx1's contract (early return inside an iter_mut loop; discharged per length <= 6 by Kani), slice length stability axiom, "
-                   "core integer specs (u64::overflowing_add/sub, wrapping_neg, i8::from(bool), cmp::min); shift_left_small/shift_right_small and add_nx1 are decided by Kani only (lengths 0,1,3,6: complete per length); "
+                   "core integer specs (u64::overflowing_add/sub, wrapping_neg, i8::from(bool), cmp::min: each cross-checked full-domain by the loop-free Kani harnesses core_specs::*); add_nx1 is decided by Kani only (lengths 0,1,3,6: complete per length); "
+                   "shift_left_small / shift_right_small are proved for all lengths in unit shifts (declared rewrite `for limb in limbs` -> `limbs.iter_mut()`); "
                    "addmul_n and its private unrolled kernels addmul_1..4 are proved in unit addmul_n",
         technique="deductive contracts (Verus, all lengths) + Kani per-length contract harnesses",
-        units=["kernels", "addmul", "addmul_n"],
+        units=["kernels", "addmul", "addmul_n", "shifts"],
         kani=dict(
             features=None,
             quick=["c15::c15_adc_sbb_n0", "c15::c15_adc_sbb_n1", "c15::c15_adc_sbb_n3", "c15::c15_adc_sbb_n6",
                    "c15::c15_add_nx1_n0", "c15::c15_add_nx1_n1", "c15::c15_add_nx1_n3", "c15::c15_add_nx1_n6",
                    "c15::c15_shift_n0", "c15::c15_shift_n1", "c15::c15_shift_n3", "c15::c15_shift_n6",
-                   "c15::c15_cmp_n0", "c15::c15_cmp_n1", "c15::c15_cmp_n4", "c15::c15_nx1_n0"],
+                   "c15::c15_cmp_n0", "c15::c15_cmp_n1", "c15::c15_cmp_n4", "c15::c15_nx1_n0"] + hs("core_specs"),
             thorough=["c15::c15_adc_sbb_n0", "c15::c15_adc_sbb_n1", "c15::c15_adc_sbb_n3", "c15::c15_adc_sbb_n6", "c15::c15_adc_sbb_n10",
                    "c15::c15_add_nx1_n0", "c15::c15_add_nx1_n1", "c15::c15_add_nx1_n3", "c15::c15_add_nx1_n6",
                    "c15::c15_shift_n0", "c15::c15_shift_n1", "c15::c15_shift_n3", "c15::c15_shift_n6",
                    "c15::c15_cmp_n0", "c15::c15_cmp_n1", "c15::c15_cmp_n4", "c15::c15_cmp_n10", "c15::c15_nx1_n0",
-                   "c15::c15_mul_nx1_n1", "c15::c15_addmul_nx1_n1", "c15::c15_submul_nx1_n1"],
+                   "c15::c15_mul_nx1_n1", "c15::c15_addmul_nx1_n1", "c15::c15_submul_nx1_n1"] + hs("core_specs"),
             bounds="per fixed slice length: all contents, loops closed by the length (complete for that length); word multiplies only at length 1",
         ),
         explanation="every kernel of ruint::algorithms named by the property carries a Verus contract over lvr() = little-endian limb value; addmul's contract is the property's sentence "
                     "(value modulo 2^(64 len) and flag <=> true sum does not fit)",
         trusted=COMMON_TRUST,
-        not_decided=["shift_left_small / shift_right_small and add_nx1 for slice lengths other than 0,1,3,6 (Kani per length only)"],
+        not_decided=["add_nx1 for slice lengths other than 0,1,3,6 (Kani per length only)"],
     ),
     "C02": dict(
         level="proof",
